@@ -183,6 +183,10 @@ pub fn check_rp_valid(sim: &Sim, snap: &Snap) -> Result<usize, Bad> {
                 "ca-issued-for-deleted-ca-with-pending-class-removal"
             } else if !sim.model.cas.contains_key(&subject) {
                 "ca-issued-for-deleted-ca"
+            } else if sim.flags.has(&format!("entitlement_emptied:{subject}"))
+                && pp_of(cert_uri).map(|(issuer, _)| !sim.model.cas.get(&subject).map(|m| m.parents.contains(&issuer)).unwrap_or(true)).unwrap_or(false)
+            {
+                "ca-issued-for-child-that-removed-parent-with-pending-class-removal"
             } else {
                 "ca-issued"
             };
